@@ -16,11 +16,15 @@ the model); nothing else is normalised.
 
 Quantifiers: every list of API calls (`LogEdits` batches with arbitrary field values, `Rewrite`),
 every rewrite threshold `thr`, both `SetSync` settings, every crash image (`Run.allImages`:
-before every file-system call, inside every append at every torn shape, and the final state).
+before every file-system call, inside every append at every torn shape, and the final state) —
+theorems `C15_reload_eq`, `C15_crash_prefix(_open)`, process-crash model, bound "call returned".
+Full strength (`C15_crash_rounds`, model in `NoKVModel/Manifest/Sync.lean`): additionally any loss
+of bytes written since the last fsync of the live manifest at every crash point, bound
+"acknowledged as durable", and any number of crash/recovery rounds (`Reach`).
 
 Only property theorems live here; lemmas are in `NoKVModel/Manifest/*Lemmas.lean`.
 -/
-import NoKVModel.Manifest.PartialLemmas
+import NoKVModel.Manifest.SyncRounds
 
 namespace NoKV.Props.C15
 open NoKV NoKV.Manifest
@@ -71,11 +75,75 @@ theorem C15_crash_prefix_open (c : MCfg) (hc : c.GoodOpen) (thr : Nat) (syncWrit
   rw [recoverOpen_eq_recoverDB c hc.2]
   exact C15_crash_prefix c hc.1 thr syncWrites cs im him
 
+/-! ## full strength: loss of unsynced bytes, any number of crash/recovery rounds -/
+
+/-- **Crash rounds (the full statement of C15).**  Take ANY run reachable by any number of rounds
+— a round is any list of `LogEdits` batches (arbitrary field values) and `Rewrite` calls with any
+threshold, then a crash, then `Verify; Open` and the next round on the recovered directory.  At
+ANY crash point of the current round (before any file-system call of any append or of any step
+of the rewrite protocol: snapshot writes, its fsync, CURRENT.tmp write/fsync, rename, old-file
+removal; or the quiescent state) and for ANY loss of bytes written to the live manifest since its
+last fsync (every record boundary at or after the synced point and every torn shape of the next
+record; the last variant is "nothing lost"):
+
+* recovery succeeds;
+* the recovered state is the state after the first `j` edits of the acknowledged list, where `j`
+  is at least the number of edits acknowledged as durable — and at least the number of edits
+  whose call had returned if nothing was lost (a process crash);
+* the run that continues from the recovered directory, with the recovered prefix as its
+  acknowledged list, is again reachable — so the same statement holds for its crash points, for
+  the round after that, and so on (`Reach` is the induction over rounds);
+* and the manager of every reachable run holds the state of its acknowledged list.
+
+`syncWrites = true` (with `SetSync(false)` nothing is acknowledged as durable and a snapshot may
+be switched to before it is on disk). -/
+theorem C15_crash_rounds (c : MCfg) (hc : c.GoodLoss) (thr : Nat) (x : XRun) (hx : Reach c thr true x) :
+    canon x.mgr.v = canon (applyAll c Version.empty x.edits) ∧
+    ∀ cd ∈ x.allCands, ∀ d' ∈ lossVariants cd.disk cd.sync,
+      ∃ x' j, x.recoverFrom c cd d' = some x' ∧ Reach c thr true x' ∧
+        cd.durable ≤ j ∧ j ≤ x.edits.length ∧ (d' = cd.disk → cd.acked ≤ j) ∧
+        x'.edits = x.edits.take j ∧ recoverDB c d' = some x'.mgr.v ∧
+        canon x'.mgr.v = canon (applyAll c Version.empty (x.edits.take j)) := by
+  have hI := XInv_reach c hc thr hx
+  refine ⟨hI.hv, ?_⟩
+  intro cd hcd d' hd'
+  obtain ⟨x', j, h1, h2, h3, h4, h5, h6, h7, _⟩ := recover_ok c hc hI hcd hd'
+  exact ⟨x', j, h1, Reach.crash hx hcd hd' h1, h2, h3, h5, h4, h6, h7⟩
+
+/-- **What "acknowledged as durable" counts.**  In every reachable run the durable count is the
+number of edits the fsynced prefix of the live manifest stands for, all of them acknowledged; and
+no acknowledged edit is missing from the live manifest (`durable ≤ acknowledged = in the file`). -/
+theorem C15_durable_meaning (c : MCfg) (hc : c.GoodLoss) (thr : Nat) (x : XRun) (hx : Reach c thr true x) :
+    x.durable ≤ (x.sync.get x.mgr.cur).2 ∧ (x.sync.get x.mgr.cur).2 ≤ x.edits.length ∧
+    ∃ f, x.disk.current = some x.mgr.cur ∧ x.disk.file? x.mgr.cur = some f ∧ f.tail = .clean ∧
+      (x.sync.get x.mgr.cur).2 + (f.recs.length - (x.sync.get x.mgr.cur).1) = x.edits.length := by
+  obtain ⟨f, h1, h2, h3, h4, h5, h6, h7, h8, h9, h10⟩ := (XInv_reach c hc thr hx).fin
+  exact ⟨h9, by omega, f, h1, h3, h4, by omega⟩
+
 /-- edits outside the three as-is defects: no raft/region edit with a nil payload, no
 `EditUpdateValueLog` that is invalid *and* carries a non-zero offset -/
 abbrev Benign := NoKV.Manifest.Benign
 
-/-- **As-is, partial.**  With the step order, truncation rules and apply rules of the as-is
+/-
+SUPERSEDED (kept as a lemma-kind theorem).  Full-strength statement the property demands:
+  for EVERY sequence of manifest edits, rewrites (snapshot + CURRENT switch) and crash points — any
+  byte prefix of the bytes written since the last sync, at any step of the rewrite protocol,
+  repeated any number of times — the reloaded state equals the state after some prefix of the
+  acknowledged edits that includes every edit acknowledged as durable, and a reload followed by
+  further edits and another crash satisfies this again.
+That is `C15_crash_rounds` above (with `C15_reload_eq` for the crash-free reload).  What
+`C15_reload_crash_partial` below lacks, exactly:
+  (a) edits: it quantifies only over call lists whose edits are `Benign` — it excludes raft/region
+      edits with a nil payload and invalid `EditUpdateValueLog`s with a non-zero offset (it was the
+      theorem for the tree *before* the three repairs; on the repaired tree `Good` holds and the
+      headline theorems quantify over all edits);
+  (b) crash model: process crash only (every completed file-system call is kept; torn shapes only
+      inside the append in flight) — no loss of bytes written since the last fsync, hence no
+      notion of "acknowledged as durable" (its lower bound is "call returned");
+  (c) rounds: one crash at the end of one run; nothing about the directory after recovery;
+  (d) the bare-`Open` entry point on torn tails.
+-/
+/-- **As-is (pre-repair), partial.**  With the step order, truncation rules and apply rules of the as-is
 tree — *without* the three repairs — reload = memory and crash ⇒ acknowledged prefix hold for
 every call list whose edits are `Benign`.  Missing from the full statement: exactly the edits
 excluded by `Benign` (findings snapshot-invalid-vlog-offset, nil-raft/region-roundtrip) and the
@@ -123,11 +191,11 @@ and one rewrite the reloaded entry has offset 0, the in-memory entry 77. -/
 theorem C15_fails_asis_invalid_vlog_offset (c : MCfg) (hc : c.snapInvalidAsUpdate = false ∧ restGood c) :
     let r := runCalls c 0 true witnessInvalidOffset
     ∃ v, recoverDB c r.disk = some v ∧ canon v ≠ canon r.mgr.v := by
-  obtain ⟨a1, a2, a3, a4, a5, a6, a7, a8, a9, a10, a11, a12, a13, a14, a15⟩ := c
+  obtain ⟨a1, a2, a3, a4, a5, a6, a7, a8, a9, a10, a11, a12, a13, a14, a15, a16⟩ := c
   obtain ⟨h0, h1, h2, h3, h4, h5, h6, h7, h8, h9, h10, h11⟩ := hc
   simp only at h0 h1 h2 h3 h4 h5 h6 h7 h8 h9 h10 h11
   subst h0 h1 h2 h3 h4 h5 h6 h7 h8 h9 h10 h11
-  cases a5 <;> cases a6 <;> cases a15 <;> exact ⟨_, rfl, by decide⟩
+  cases a5 <;> cases a6 <;> cases a16 <;> cases a10 <;> exact ⟨_, rfl, by decide⟩
 
 def witnessNilRaft : List Call := [.log [.raft none]]
 def witnessNilRegion : List Call := [.log [.region none]]
@@ -138,21 +206,21 @@ a raft pointer for group 0. -/
 theorem C15_fails_asis_nil_raft (c : MCfg) (hc : c.nilRaftRoundtrip = false ∧ restGood c) :
     let r := runCalls c 0 true witnessNilRaft
     ∃ v, recoverDB c r.disk = some v ∧ canon v ≠ canon r.mgr.v := by
-  obtain ⟨a1, a2, a3, a4, a5, a6, a7, a8, a9, a10, a11, a12, a13, a14, a15⟩ := c
+  obtain ⟨a1, a2, a3, a4, a5, a6, a7, a8, a9, a10, a11, a12, a13, a14, a15, a16⟩ := c
   obtain ⟨h0, h1, h2, h3, h4, h5, h6, h7, h8, h9, h10, h11⟩ := hc
   simp only at h0 h1 h2 h3 h4 h5 h6 h7 h8 h9 h10 h11
   subst h0 h1 h2 h3 h4 h5 h6 h7 h8 h9 h10 h11
-  cases a1 <;> cases a6 <;> cases a15 <;> exact ⟨_, rfl, by decide⟩
+  cases a1 <;> cases a6 <;> cases a16 <;> cases a10 <;> exact ⟨_, rfl, by decide⟩
 
 /-- same for `EditRegion`: the reloaded state has a region 0. -/
 theorem C15_fails_asis_nil_region (c : MCfg) (hc : c.nilRegionRoundtrip = false ∧ restGood c) :
     let r := runCalls c 0 true witnessNilRegion
     ∃ v, recoverDB c r.disk = some v ∧ canon v ≠ canon r.mgr.v := by
-  obtain ⟨a1, a2, a3, a4, a5, a6, a7, a8, a9, a10, a11, a12, a13, a14, a15⟩ := c
+  obtain ⟨a1, a2, a3, a4, a5, a6, a7, a8, a9, a10, a11, a12, a13, a14, a15, a16⟩ := c
   obtain ⟨h0, h1, h2, h3, h4, h5, h6, h7, h8, h9, h10, h11⟩ := hc
   simp only at h0 h1 h2 h3 h4 h5 h6 h7 h8 h9 h10 h11
   subst h0 h1 h2 h3 h4 h5 h6 h7 h8 h9 h10 h11
-  cases a1 <;> cases a5 <;> cases a15 <;> exact ⟨_, rfl, by decide⟩
+  cases a1 <;> cases a5 <;> cases a16 <;> cases a10 <;> exact ⟨_, rfl, by decide⟩
 
 def witnessTorn : List Call := [.log [.logPtr 1 2]]
 
@@ -162,25 +230,81 @@ acknowledged edit is at stake; `Verify; Open` recovers the empty state. -/
 theorem C15_fails_asis_open_torn (c : MCfg) (hc : c.openVerifies = false ∧ restGood c) :
     ∃ im ∈ (runCalls c 0 true witnessTorn).allImages,
       recoverOpen c im.disk = none ∧ recoverDB c im.disk = some Version.empty := by
-  obtain ⟨a1, a2, a3, a4, a5, a6, a7, a8, a9, a10, a11, a12, a13, a14, a15⟩ := c
+  obtain ⟨a1, a2, a3, a4, a5, a6, a7, a8, a9, a10, a11, a12, a13, a14, a15, a16⟩ := c
   obtain ⟨h0, h1, h2, h3, h4, h5, h6, h7, h8, h9, h10, h11⟩ := hc
   simp only at h0 h1 h2 h3 h4 h5 h6 h7 h8 h9 h10 h11
   subst h0 h1 h2 h3 h4 h5 h6 h7 h8 h9 h10 h11
   refine ⟨⟨Disk.init.setFile 1 { recs := [], tail := .partLen }, 0, 1⟩, ?_, ?_⟩
-  · cases a1 <;> cases a5 <;> cases a6 <;> decide
-  · cases a1 <;> cases a5 <;> cases a6 <;> decide
+  · cases a1 <;> cases a5 <;> cases a6 <;> cases a10 <;> decide
+  · cases a1 <;> cases a5 <;> cases a6 <;> cases a10 <;> decide
+
+def witnessRewrite : List Call := [.log [.logPtr 1 2], .rewrite]
+
+/-- **Finding current-name-unsynced.**  `writeCurrent` writes CURRENT.tmp with `WriteFile` and
+renames it without an fsync: the NAME in CURRENT counts as "bytes written since the last sync"
+for ever.  After one synced edit and one rewrite, a crash that keeps only a proper prefix of that
+name leaves a CURRENT that names no file: `Verify` reports not-exist (ignored by db.go) and `Open`
+silently starts an EMPTY manifest — the edit acknowledged as durable is gone (and the next
+`Open` truncates MANIFEST-000001 and repoints CURRENT at it). -/
+theorem C15_fails_asis_current_unsynced (c : MCfg) (hc : c.currentTmpSynced = false ∧ restGood c) :
+    let x := (({} : XRun).call c 0 true (.log [.logPtr 1 2])).call c 0 true .rewrite
+    ∃ cd ∈ x.allCands, ∃ d' ∈ lossVariants cd.disk cd.sync,
+      cd.durable = x.edits.length ∧ recoverDB c d' = some Version.empty ∧
+      canon (applyAll c Version.empty x.edits) ≠ canon Version.empty ∧ x.recoverFrom c cd d' = none := by
+  obtain ⟨a1, a2, a3, a4, a5, a6, a7, a8, a9, a10, a11, a12, a13, a14, a15, a16⟩ := c
+  obtain ⟨h0, h1, h2, h3, h4, h5, h6, h7, h8, h9, h10, h11⟩ := hc
+  simp only at h0 h1 h2 h3 h4 h5 h6 h7 h8 h9 h10 h11
+  subst h0 h1 h2 h3 h4 h5 h6 h7 h8 h9 h10 h11
+  intro x
+  refine ⟨x.final, ?_, { x.disk with current := some (freshId x.disk) }, ?_, ?_, ?_, ?_, ?_⟩ <;>
+    (cases a1 <;> cases a5 <;> cases a6 <;> cases a16 <;> decide)
 
 /-! ## non-vacuity -/
 
 /-- a threshold of 1 byte makes every append rewrite: CURRENT ends up naming MANIFEST-000003 -/
 example : (runCalls MCfg.good 1 true [.log [.logPtr 1 2], .log [.logPtr 3 4]]).disk.current = some 3 := by decide
 
-/-- … and that run has 25 crash images between file-system calls and 6 torn ones -/
-example : (runCalls MCfg.good 1 true [.log [.logPtr 1 2], .log [.logPtr 3 4]]).allImages.length = 31 := by decide
+/-- … and that run has 31 crash images between file-system calls (the final state included) and 6 torn ones -/
+example : (runCalls MCfg.good 1 true [.log [.logPtr 1 2], .log [.logPtr 3 4]]).allImages.length = 37 := by decide
 
 /-- the good configuration satisfies the hypotheses; the as-is one those of the partial theorem -/
 example : MCfg.good.GoodOpen := by decide
 example : MCfg.asis.GoodAsIs := by decide
 example : ¬ MCfg.asis.Good := by decide
+
+/-- rounds: one synced edit, one unsynced raft edit, a rewrite with threshold 1 on the next edit —
+the durable count is 1, 1, 3 after the three calls -/
+example : ((({} : XRun).call MCfg.good 0 true (.log [.logPtr 1 2])).durable,
+           ((({} : XRun).call MCfg.good 0 true (.log [.logPtr 1 2])).call MCfg.good 0 true
+              (.log [.raft (some RaftPtr.zero)])).durable,
+           (((({} : XRun).call MCfg.good 0 true (.log [.logPtr 1 2])).call MCfg.good 0 true
+              (.log [.raft (some RaftPtr.zero)])).call MCfg.good 1 true (.log [.logPtr 3 4])).durable)
+          = (1, 1, 3) := by decide
+
+/-- the unsynced raft edit can really be lost: the quiescent state after the second call has 5 loss
+variants (4 shapes of "raft record cut" + "nothing lost"), and the first recovers to 1 edit -/
+example :
+    let x := ((({} : XRun).call MCfg.good 0 true (.log [.logPtr 1 2])).call MCfg.good 0 true
+              (.log [.raft (some RaftPtr.zero)]))
+    (lossVariants x.final.disk x.final.sync).length = 5 ∧
+    ((lossVariants x.final.disk x.final.sync).head?.bind (fun d' => x.recoverFrom MCfg.good x.final d')).map
+      (fun x' => x'.edits.length) = some 1 := by decide
+
+/-- a second round: recover from that loss (the raft record cut inside its length prefix), log two
+more edits — the run is reachable, so `C15_crash_rounds` speaks about its crash points too -/
+example :
+    let x := ((({} : XRun).call MCfg.good 0 true (.log [.logPtr 1 2])).call MCfg.good 0 true
+              (.log [.raft (some RaftPtr.zero)]))
+    let d' := Disk.init.setFile 1 { recs := [.logPtr 1 2], tail := .partLen }
+    (x.recoverFrom MCfg.good x.final d').isSome = true ∧
+    ∀ x', x.recoverFrom MCfg.good x.final d' = some x' →
+      Reach MCfg.good 0 true (x'.call MCfg.good 0 true (.log [.logPtr 5 6, .logPtr 7 8])) := by
+  intro x d'
+  refine ⟨by decide, ?_⟩
+  intro x' h
+  exact Reach.call _ (Reach.crash (Reach.call _ (Reach.call _ Reach.init)) (by decide) (by decide) h)
+
+example : MCfg.good.GoodLoss := by decide
+example : ¬ MCfg.asis.GoodLoss := by decide
 
 end NoKV.Props.C15
